@@ -4,9 +4,13 @@
 (created under /tmp/rerun_wt, removed at the end) and the check runs against that tree (VERIF_REPO).
 usage: tools/rerun_seeds.py [name-prefix | Cxx] [--workers 6]"""
 import glob, json, os, subprocess, sys, threading
-args = [a for a in sys.argv[1:] if not a.startswith("--")]
-pref = args[0] if args else ""
-workers = int(sys.argv[sys.argv.index("--workers") + 1]) if "--workers" in sys.argv else 6
+argv = sys.argv[1:]
+workers = 6
+if "--workers" in argv:
+    i = argv.index("--workers")
+    workers = int(argv[i + 1])
+    del argv[i:i + 2]
+pref = argv[0] if argv else ""
 BASE = "/tmp/rerun_wt"
 todo = []
 for d in sorted(glob.glob("/verif/seeded/*/")):
